@@ -9,6 +9,9 @@ with tempfile.TemporaryDirectory() as d:
     x = os.path.join(d, "j.xml")
     env = dict(os.environ); env.pop("NEUROGLANCER_SCRIPTS_VERIF", None)
     env["PYTHONPATH"] = os.path.join(root, "src")
+    # the repository's on-disk shard buffers leave temporary directories
+    # behind when run on a real file system: keep them inside our own
+    env["TMPDIR"] = d
     subprocess.run(["/venv/bin/python", "-m", "pytest", "-q", "-p",
                     "no:cacheprovider", "--timeout=900",
                     "--continue-on-collection-errors", f"--junitxml={x}"],
